@@ -66,7 +66,7 @@ from typing import TYPE_CHECKING, Any, Literal, TypeVar, Union
 import numpy as np
 from typing_extensions import Self
 
-from ...tools.cache import cached_method
+from ...tools.cache import cached_method, hash_mutable
 from ...tools.docstrings import fill_in_docstring
 from ...tools.misc import number
 from ..base import GridBase, PeriodicityError
@@ -1318,6 +1318,14 @@ class ConstBCBase(BCBase):
         if not isinstance(other, self.__class__):
             return NotImplemented
         return super().__eq__(other) and np.array_equal(self.value, other.value)
+
+    def _cache_hash(self) -> int:
+        """Return a hash for caching, which binds linked values by their address."""
+        state = dict(self.__dict__)
+        if self.value_is_linked:
+            # compiled code reads the linked array directly from its memory address
+            state["_value"] = self._value.ctypes.data
+        return hash((self.__class__, hash_mutable(state)))
 
     @property
     def value(self) -> NumericArray:
